@@ -147,6 +147,21 @@ func (g *gatedStore) AddCallback(id string, fn beacon.CallbackFunc) {
 	g.s.mu.Unlock()
 }
 
+// AddReplaceableCallback is what SyncChain registers with since the reconnect fix: gated exactly like AddCallback.
+func (g *gatedStore) AddReplaceableCallback(id string, fn beacon.CallbackFunc) func() {
+	_ = g.s.park("register", 0)
+	remove := g.CallbackStore.AddReplaceableCallback(id, func(b *common.Beacon, closed bool) {
+		if !closed && b != nil {
+			_ = g.s.park("callback", b.Round)
+		}
+		fn(b, closed)
+	})
+	g.s.mu.Lock()
+	g.s.registered = true
+	g.s.mu.Unlock()
+	return remove
+}
+
 // Last is gated too: SyncChain reads the head once at the start and once for the hand-over after registering its callback.
 func (g *gatedStore) Last(ctx context.Context) (*common.Beacon, error) {
 	if err := g.s.park("last", 0); err != nil {
@@ -249,6 +264,19 @@ func (r *rig) collect(s *streamCtl) {
 	}
 }
 
+// collectLate picks up goroutines of an ENDED stream that are still parked (its callback worker inside a Send that has not
+// returned yet: SyncChain returned, e.g. because the callback was replaced, while that send was pending).
+func (r *rig) collectLate(s *streamCtl) {
+	for {
+		select {
+		case p := <-s.parkCh:
+			s.more = append(s.more, p)
+		default:
+			return
+		}
+	}
+}
+
 // await waits until at least one goroutine of the stream is parked at a gate, the stream has ended, or it is idle in its live
 // phase (nothing to do). Returns a short state string. A stream has two goroutines that can park independently: the
 // SyncChain goroutine and the callback worker.
@@ -298,7 +326,10 @@ func (r *rig) state(s *streamCtl) string {
 
 // step releases the parked goroutine `which` (modulo the number parked; optionally making a Send fail) and waits for the next state.
 func (r *rig) step(s *streamCtl, which int, sendErr error) string {
-	if s.ended {
+	if s.ended && len(s.more) == 0 {
+		r.collectLate(s)
+	}
+	if s.ended && len(s.more) == 0 {
 		return "ended"
 	}
 	if len(s.more) == 0 {
